@@ -1,9 +1,10 @@
-(* line: <id> T N s0 u0 s1 u1 ... ; output: <id> rem:ret:delay:retrans ... (same as harness/timer_h.c) *)
+(* line: <id> T N|R s0 u0 s1 u1 ... (N = R: stun_timer_start_reliable) ; output: <id> rem:ret:delay:retrans ... (same as harness/timer_h.c) *)
 let () = read_lines (fun l ->
   match split_ws l with
   | id :: t :: n :: s0 :: u0 :: rest ->
     let zi x = z_of_int (int_of_string x) in
-    let tm = ref (timer_start { sec = zi s0; usec = zi u0 } (zi t) (zi n)) in
+    let tm = ref (if n = "R" then timer_start_reliable { sec = zi s0; usec = zi u0 } (zi t)
+                  else timer_start { sec = zi s0; usec = zi u0 } (zi t) (zi n)) in
     let b = Buffer.create 256 in
     Buffer.add_string b id;
     let rec go = function
